@@ -8,7 +8,7 @@ package fs
 //@   trusted package variable initialised to os.Chmod (tests may replace it; the daemon never does)
 //@   modifies fmode(name)
 //@   ensures err == nil ==> fmode(name) == mode
-//@   ensures err != nil ==> fmode(name) == old(fmode(name))
+//@   ensures err != nil ==> fmode(name) == old(fmode(name)) && osRefuses(name)
 
 // ---- C15: every file that holds a private key or share is readable by its owner only -------------------
 //@ func CreateSecureFile(file) (f, err)
@@ -16,5 +16,6 @@ package fs
 //@   modifies fexists(file), fmode(file), fcontent(file)
 //@   ensures [C15:secure-file-is-owner-only] err == nil ==> f != nil && pathOf(f) == file && fexists(file) && fmode(file) == 384
 //@   ensures [C15:secure-file-is-empty-until-its-mode-is-set] err == nil ==> fcontent(file) == nil
+//@   ensures [C13:a-leftover-file-of-that-name-is-no-reason-for-the-creation-to-fail] err != nil ==> osRefuses(file)
 //@   call OpenFile#0: assert [C15:mode-set-before-the-file-is-handed-out] fexists(file) && fmode(file) == 384 && fcontent(file) == nil
 //@ lemma [C15] secret-file-mode-has-no-group-or-other-bits: 384 == 256 + 128 && rwFilePermission == 384
